@@ -536,9 +536,10 @@ def inline_new_helpers(prog):
         def hoist(st, caller):
             """f(h(x)) / y = g(h(x)) / return g(h(x)): a call to an unknown multi-statement helper that sits inside a simple
             statement is bound to a temporary first, so that it can be expanded as an assignment"""
-            if not isinstance(st, (ast.Expr, ast.Assign, ast.Return)) or st.value is None:
+            is_if = isinstance(st, ast.If)
+            if not is_if and (not isinstance(st, (ast.Expr, ast.Assign, ast.Return)) or st.value is None):
                 return [st]
-            top = st.value
+            top = None if is_if else st.value  # (the test of an `if` is evaluated once, before the branches: same treatment)
             pre = []
             k = 0
 
@@ -572,7 +573,10 @@ def inline_new_helpers(prog):
                     pre.append(ast.Assign(targets=[ast.Name(id=name, ctx=ast.Store())], value=n, lineno=st.lineno, col_offset=0))
                     return ast.copy_location(ast.Name(id=name, ctx=ast.Load()), n)
 
-            st.value = H().visit(st.value)
+            if is_if:
+                st.test = H().visit(st.test)
+            else:
+                st.value = H().visit(st.value)
             for x in pre:
                 ast.fix_missing_locations(x)
             return pre + [st]
